@@ -147,6 +147,8 @@ func runC03(k *eng.Check, tier string) {
 		scan := eng.CallSet(fn, eng.Static("store/nbs.possibleDataLossCheck"))
 		notRecovered := eng.CondEdges(fn, `recovered|processJournalRecordsReader\(.*\)#2`, false)
 		k.OnlyAfter("truncate-after-dataloss-scan", fn, "Truncate is unreachable once the data-loss scan and the recovered==false edge are removed", trunc, 1, eng.UnionOf(scan, notRecovered))
+		// whoever opens the journal (also an opener that may not truncate) learns about damage that is followed by valid records
+		k.OnlyAfter("dataloss-scan-on-every-recovery", fn, "once an unusable record stopped the replay (recovered == true), a success exit is reached only after the data-loss scan ran", eng.SuccessExits(fn), 1, eng.UnionOf(scan, notRecovered))
 		// dataLossFound true edge must not reach Truncate nor a success exit
 		dl := eng.CondEdges(fn, `^call:store/nbs\.possibleDataLossCheck\(.*\)#0$`, true)
 		if dl.Len() < 1 {
